@@ -4,10 +4,11 @@ VERIF = os.path.dirname(os.path.dirname(os.path.abspath(__file__)))
 sys.path.insert(0, VERIF)
 props = [json.loads(l) for l in open(os.path.join(VERIF, "properties.jsonl"))]
 checks, na = [], []
+READY = set(open(os.path.join(VERIF, "vf", "ready.txt")).read().split())
 for p in props:
     pid = p["id"]
     path = os.path.join(VERIF, "vf", "props", pid + ".py")
-    if not os.path.exists(path):
+    if pid not in READY or not os.path.exists(path):
         na.append({"property_id": pid, "reason": "check not built yet (design in DESIGN.md section 6); not claimed until its driver exists and is silent on the unchanged tree"})
         continue
     m = importlib.import_module("vf.props." + pid)
